@@ -148,7 +148,7 @@ def run(tier, seed, drv):
                  sample={"scenario": scn} if i < 1 else None)
         res.count("zero-cost" if zero_cost else "with-cost")
         res.count("with-interrupts" if scn.get("stims") else "callbacks-only")
-        SC.check_run(scn, run_, drv, res, monitors_on=("pacing", "interrupt_stamp"), corr=("sim",) if zero_cost else (),
+        SC.check_run(scn, run_, drv, res, monitors_on=("pacing", "interrupt_stamp"), corr=("ticks",) if zero_cost else (),
                      case_extra={"bus": "sync"}, with_real=zero_cost)
     res.rule = ("(i) generated (when, ticker.time, last_time, now, speed) tuples, dyadic speeds 1/4..8, fed to the real MasterScheduler.sleep_time and "
                 "schedule_interrupt with a patched clock and compared with the Lean arithmetic; (ii) generated flat/nested simulations with those speeds, "
